@@ -83,7 +83,7 @@ TTimeout ==
 
 TNoEffect ==
     /\ \/ IsEvent("AcquireFailed") \/ IsEvent("StaleDrop") \/ IsEvent("FullDrop")
-       \/ IsEvent("RefreshBegin")
+       \/ IsEvent("RefreshBegin") \/ IsEvent("ResetDone")   \* (a reset changes nothing the property speaks of)
     /\ UNCHANGED <<size, phase, latestGen, completedGen, popCtx, giving, waiting, tainted, pushCtx>>
 
 TGiveBack ==
@@ -97,6 +97,12 @@ TPush ==
     /\ \/ phase = "set"                                           \* inside the window
        \/ giving[E.t].gen = latestGen                             \* NoStaleAdmit
        \/ giving[E.t].rid \in tainted
+    /\ UNCHANGED <<size, phase, latestGen, completedGen, popCtx, giving, waiting, tainted, pushCtx>>
+
+(* the number of resources in the pool, observed when every thread is done *)
+TPoolLen ==
+    /\ IsEvent("PoolLen")
+    /\ E.len <= size                                              \* Bounded
     /\ UNCHANGED <<size, phase, latestGen, completedGen, popCtx, giving, waiting, tainted, pushCtx>>
 
 TSetDisc ==
@@ -181,7 +187,7 @@ TProverNoEffect ==
 TraceNext ==
     \/ TPPop \/ TPPush \/ TRPush \/ TProved \/ TProverNoEffect
     \/ TNewPool \/ TPop \/ TGot \/ TWait \/ TTimeout \/ TNoEffect \/ TGiveBack \/ TPush
-    \/ TSetDisc \/ TClear \/ TSetDiscAndClear \/ TRefreshDone \/ TKnownWindowGot
+    \/ TSetDisc \/ TClear \/ TSetDiscAndClear \/ TRefreshDone \/ TKnownWindowGot \/ TPoolLen
 
 TraceSpec == TraceInit /\ [][TraceNext]_tvars
 
